@@ -60,6 +60,19 @@ FIXED = [
  ("C02", "rebuilding a mesh does not flag every edge", "rebuilding from an already built mesh (RawMeshData(mesh), subdivision, merge) flagged every edge as a hard edge"),
  ("C02", "_generate_cell_corners fills the owner list", "cell corners pre-filled with vertices only: cell indices appended to the vertex list instead of the owner list"),
  ("C18", "face-based frame field clears the 'fixed' flags", "with config.display_duplicate_attribute_warning=True a second face-based frame field on the same mesh with fewer constraints (features on, then off) treated the faces fixed by the earlier field as fixed: their values stayed 0 (unit modulus violated, not the harmonic extension)"),
+ ('C04', "OFF reader ignores '#' comments", "an OFF file with '#' comment lines or trailing comments (allowed by the format) raised ValueError on load"),
+ ('C04', 'OFF reader accepts the element counts on the same line', "an OFF file whose counts follow the keyword on the header line ('OFF nv nf ne') raised ValueError / IndexError on load"),
+ ('C04', "OBJ reader keeps every segment of an 'l' record", "an OBJ 'l' record with more than two vertices lost every segment after the first"),
+ ('C04', 'OBJ reader resolves negative (relative) indices', "negative (relative) indices in OBJ 'f' and 'l' records were read as absolute indices (wrong elements)"),
+ ('C04', 'xyz reader skips blank lines', 'a blank line in an xyz file became a vertex without coordinates'),
+ ('C04', 'tet reader skips blank lines', 'a blank line in a .tet file was read as a vertex or a cell (wrong content, ValueError or UnboundLocalError)'),
+ ('C04', 'geogram_ascii reader skips blank lines and comment-only lines', 'blank lines and comment-only lines in a geogram_ascii file were parsed as values (ValueError / Exception)'),
+ ('C04', 'ASCII STL reader skips blank lines', 'a blank line in an ASCII STL file raised IndexError'),
+ ('C04', 'medit reader skips blank lines inside a block', 'a blank line inside a medit block was read as an element (wrong content, ValueError or UnboundLocalError)'),
+ ('C04', 'medit reader reads a block whose keyword and count are on the same line', "a medit block written as 'Keyword n' on one line was skipped"),
+ ('C04', "medit reader honours 'Dimension 2'", "a medit file with 'Dimension 2' had its vertex reference read as the z coordinate"),
+ ('C03', 'volume edge adjacency skips face sides absent from the edge list', 'on a volume mesh without a complete edge list (config.complete_edges_from_faces=False) the first edge query raised KeyError and later ones answered from the half-built tables (answers depended on the query order)'),
+ ('C03', 'boundary connectivity of a volume maps the border edges when config.complete_edges_from_faces is off', 'with config.complete_edges_from_faces=False the border surface of enable_boundary_connectivity had no edges: every border edge was mapped to None and the edge maps were not mutually inverse'),
  ("C02", "edge attributes survive the removal of invalid edges", "dropping an invalid edge lost the values of dense edge attributes (ValueError for vector ones) and the custom default of sparse ones"),
  ("C02", "cell/face connectivity works when cells are numpy rows", "face_to_cells / cell_to_face / in_cell_face_index raised ValueError on volume meshes whose cells are numpy rows (from_arrays)"),
  ("C16", "singularity cutter reaches every face", "SingularityCutter with a feature detector and >= 1 singularity: faces enclosed by forbidden feature edges were never reached by the dual search and the cut mesh fell apart into several components"),
@@ -106,6 +119,10 @@ KNOWN = [
  ("C14", ("C14.valid.indices_in_range", "procedural.unit_triangle", "mismatch:index_out_of_range", "unit_triangle:nu<nv"), "unit_triangle(nu < nv) produces out-of-range faces (its row structure only meshes the right triangle when nu == nv)"),
  ("C14", ("C14.geometry.requested_corners", "procedural.unit_triangle", "mismatch:corner_missing", "unit_triangle:nu>nv"), "unit_triangle(nu > nv) does not reach the corner (1,0): the result is not the unit right triangle"),
  ("C14", ("C14.geometry.on_surface", "procedural.cylindrify_edges", "mismatch:radius", "cylindrify_edges:mean_edge_length!=1"), "cylindrify_edges(radius) is relative to the mean edge length although documented as the radius of the cylinders"),
+ ("C03", ("C03.extract_boundary_of_volume", "processing.border.extract_boundary_of_volume", "mismatch:not_closed_consistently_oriented", "tet:cells1:positive:sort=True:fresh:faces_given_ascending_winding:face_completion_off"), 'extract_boundary_of_volume copies the winding of the faces as they are stored: when the caller declares the triangles itself (config.complete_faces_from_cells=False, or faces listed in a file) with another winding than the one generated from the cells, the extracted surface is not consistently oriented outwards although every cell is positively oriented (repair = re-orient declared faces from their cell, a behaviour change for the maintainer to decide; enable_boundary_connectivity already orients by a determinant test)'),
+ ("C03", ("C03.extract_boundary_of_volume", "processing.border.extract_boundary_of_volume", "mismatch:not_closed_consistently_oriented", "tet:cells1:positive:sort=True:warm:faces_given_ascending_winding:face_completion_off"), 'extract_boundary_of_volume copies the winding of the faces as they are stored: when the caller declares the triangles itself (config.complete_faces_from_cells=False, or faces listed in a file) with another winding than the one generated from the cells, the extracted surface is not consistently oriented outwards although every cell is positively oriented (repair = re-orient declared faces from their cell, a behaviour change for the maintainer to decide; enable_boundary_connectivity already orients by a determinant test)', ["thorough"]),
+ ("C03", ("C03.extract_boundary_of_volume", "processing.border.extract_boundary_of_volume", "mismatch:not_closed_consistently_oriented", "tet:cells2+:positive:sort=True:fresh:faces_given_ascending_winding:face_completion_off"), 'extract_boundary_of_volume copies the winding of the faces as they are stored: when the caller declares the triangles itself (config.complete_faces_from_cells=False, or faces listed in a file) with another winding than the one generated from the cells, the extracted surface is not consistently oriented outwards although every cell is positively oriented (repair = re-orient declared faces from their cell, a behaviour change for the maintainer to decide; enable_boundary_connectivity already orients by a determinant test)'),
+ ("C03", ("C03.extract_boundary_of_volume", "processing.border.extract_boundary_of_volume", "mismatch:not_closed_consistently_oriented", "tet:cells2+:positive:sort=True:warm:faces_given_ascending_winding:face_completion_off"), 'extract_boundary_of_volume copies the winding of the faces as they are stored: when the caller declares the triangles itself (config.complete_faces_from_cells=False, or faces listed in a file) with another winding than the one generated from the cells, the extracted surface is not consistently oriented outwards although every cell is positively oriented (repair = re-orient declared faces from their cell, a behaviour change for the maintainer to decide; enable_boundary_connectivity already orients by a determinant test)', ["thorough"]),
 ]
 
 
